@@ -66,7 +66,7 @@ def parseWriter (s : String) : Option W :=
     | some n => parseAttrs (rest.dropWhile Char.isDigit) { kind := k, size := n }
   | [] => none
 
-def isJson (k : Char) : Bool := k = 'j' ∨ k = 'J' ∨ k = 'y' ∨ k = 'Y' ∨ k = 'b' ∨ k = 'o'
+def isJson (k : Char) : Bool := k = 'j' ∨ k = 'J' ∨ k = 'y' ∨ k = 'Y' ∨ k = 'b' ∨ k = 'o' ∨ k = 'G' ∨ k = 'H'
 
 /-- pattern character `i` of a long query -/
 def qchar (tag i : Nat) : UInt8 :=
@@ -96,10 +96,11 @@ f/F forward_message (async client); servers: r response, o response of an off-re
 B notify through `PeerRegistry::broadcast_notify_raw`, h notify pushed from the connect hook) -/
 def shape (ep : Nat) (k : Char) : Option (String × Bool × Nat) :=
   if ep ≤ 2 then
-    (if k = 'c' ∨ k = 'T' ∨ k = 'm' then some ("/t/", false, 0)
+    (if k = 'c' ∨ k = 'T' ∨ k = 'm' ∨ k = 'g' then some ("/t/", false, 0)
+     else if k = 'S' ∨ k = 'A' then some ("/t/", false, 1)
      else if k = 'n' ∨ k = 't' then some ("/t/", true, 0)
      else if k = 'j' ∨ k = 'y' then some ("/t/", true, 2)
-     else if k = 'J' ∨ k = 'Y' ∨ k = 'b' then some ("/t/", false, 2)
+     else if k = 'J' ∨ k = 'Y' ∨ k = 'b' ∨ k = 'G' ∨ k = 'H' then some ("/t/", false, 2)
      else if k = 'v' then some ("/t/", true, 1)
      else if k = 'V' then some ("/t/", false, 1)
      else if k = 'f' ∧ ep = 1 then some ("/t/", true, 0)
@@ -120,7 +121,7 @@ def frameOf (ep : Nat) (ws : List W) (tag id : Nat) (opq : Option Nat := none) :
   else
   let w ← ws[tag]?
   let (pre, notify, bfmt) ← shape ep w.kind
-  if (isJson w.kind ∧ w.size < 2) ∨ (w.kind = 'm' ∧ w.size ≠ 0) then none
+  if (isJson w.kind ∧ w.size < 2) ∨ ((w.kind = 'm' ∨ w.kind = 'g') ∧ w.size ≠ 0) then none
   let clientSide := ep ≤ 2
   let q := queryOf pre tag w
   let notify := if (w.kind = 'f' ∨ w.kind = 'F') then (match w.nb with | some 1 => true | some _ => false | none => notify) else notify
